@@ -54,7 +54,7 @@ def strategy(tier):
                                        "odd-message", "non-str-arg", "base", "bad-request", "bad-request"]),
         "drive": st.sampled_from(["start", "bounded", "step", "mixed"]),
         # (cut 10 is the replication end itself; "runx" is the exclusive bounded run)
-        "cuts": st.lists(st.integers(0, 10), min_size=1, max_size=4),
+        "cuts": st.lists(st.integers(0, 12), min_size=1, max_size=4),           # (11, 12: beyond the end)
         "mix": st.lists(st.sampled_from(["step", "run", "step", "start", "runx"]), min_size=1, max_size=10),
     })
 
